@@ -58,8 +58,12 @@ def _gen_elf(rng, d, k):
     open(s, "w").write("\n".join(asm) + "\n")
     if subprocess.run(["gcc", "-c", s, "-o", o], capture_output=True).returncode != 0:
         return None
-    args = ["ld", o, "-o", exe, "-e", "_start"]
-    args += rng.choice([[], ["--build-id"], ["-Ttext=0x401000"], ["-pie"], ["--build-id", "-Ttext-segment=0x10000"]])
+    if rng.chance(1, 3):
+        # lld lays segments out back to back in the file while their addresses move to the next page: abutting file ranges with different deltas
+        args = ["ld.lld", o, "-o", exe, "-e", "_start"] + rng.choice([[], ["--build-id"], ["-pie"], ["-z", "separate-code"]])
+    else:
+        args = ["ld", o, "-o", exe, "-e", "_start"]
+        args += rng.choice([[], ["--build-id"], ["-Ttext=0x401000"], ["-pie"], ["--build-id", "-Ttext-segment=0x10000"]])
     if subprocess.run(args, capture_output=True).returncode != 0:
         return None
     for f in (s, o):
@@ -137,6 +141,10 @@ def _pick_lookups(rng, dump, n=40):
                     break
     if dump["object"]:
         lookups += [("s", rng.below(2**40)), ("s", max(0, base - 1)), ("o", rng.below(1 << 22)), ("o", 2**63)]
+        # every boundary of the file ranges: first and last byte of a range, one before, one past (abutting ranges with different deltas)
+        for (sv, fo, sz) in ranges[:6]:
+            for off in (fo, max(fo - 1, 0), fo + max(sz, 1) - 1, fo + sz):
+                lookups.append(("o", off))
     # window of entries: every entry within [min-?, max+?] plus two neighbours on each side
     rel = [a for f, a in [(f, (v if f == "r" else None)) for f, v in lookups] if a is not None]
     return lookups, ents
